@@ -529,6 +529,12 @@ class Oracles:
         if incb:
             w.label("flush:overlaps-callback")
         failed_before = [t for t in must if t.finished() and not t.atask.cancelled() and t.atask.exception() is not None]
+        # spawners that died of an exception of the user's function / iterable and have not been through a flush or close yet
+        dead_spawners = [r for r in pm.reqs if r.spawner is not None and r.spawner.done() and not r.spawner.cancelled()
+                         and r.spawner.exception() is not None and self.is_injected(pm, r.spawner.exception()) and not getattr(r, "meta_exc_seen", False)]
+        for r in pm.reqs:
+            if r.spawner is not None and r.spawner.done():
+                r.meta_exc_seen = True  # type: ignore[attr-defined]   (this flush pops them at once; a later one finds nothing)
         epoch = self.forget_epoch
         me = asyncio.current_task()
         if not inline:
@@ -565,6 +571,8 @@ class Oracles:
             return
         if self.forget_epoch != epoch:
             failed_before = []      # another flush / close finished meanwhile and may have taken the failed task away first
+            dead_spawners = []
+
         self.forget_epoch += 1
         if getattr(me, "vt_abandoned", False):
             # the caller gave up waiting (it was cancelled): whatever flush did or did not forget is open, nothing is owed
@@ -593,6 +601,8 @@ class Oracles:
             return
         if failed_before and not re_:
             w.fail({"C12"}, "flush/swallowed-a-task-exception", f"{pm.name}#{failed_before[0].tid} had failed with {failed_before[0].atask.exception()!r}")
+        if dead_spawners and not re_:
+            w.fail({"C12"}, "flush/swallowed-a-spawner-exception", f"r{dead_spawners[0].rid}({dead_spawners[0].kind}) had died of {dead_spawners[0].spawner.exception()!r}")
         # returned normally: everything finished before the call must be forgotten
         for tm in must:
             tm.may_forget = True
@@ -672,6 +682,9 @@ class Oracles:
         kw = {"return_exceptions": True} if re_ else {}
         raised: Optional[BaseException] = None
         pm.close_active = getattr(pm, "close_active", 0) + 1  # type: ignore[attr-defined]
+        for r in pm.reqs:
+            if r.spawner is not None and r.spawner.done():
+                r.meta_exc_seen = True  # type: ignore[attr-defined]   (gather_and_close awaits the meta tasks itself)
         try:
             await pm.pool.gather_and_close(**kw)
         except asyncio.CancelledError:
@@ -712,7 +725,7 @@ class Oracles:
             if bad:
                 w.fail({"C12"}, "close/swallowed-a-task-exception", f"{pm.name}#{bad[0].tid} had failed with {bad[0].atask.exception()!r}")
         for r in pre_reqs:
-            if r.cancelled or getattr(r, "iter_failed", None) is not None or getattr(r, "bad_return", None) is not None:
+            if r.cancelled or getattr(r, "iter_failed", None) is not None or getattr(r, "bad_return", None) is not None or getattr(r, "call_fatal", None) is not None:
                 continue        # cancelled, or ended by a fault of the user's own iterable / function: nothing more is owed
             missing = r.expected_calls - self.accounted(pm, r) if (r.kind in ("apply", "start") or r.pulled >= 0) else 0
             if r.kind not in ("apply", "start") and r.pulled >= 0 and not r.exhausted:
@@ -1276,6 +1289,9 @@ class Oracles:
                 if getattr(rm, "bad_return", None) is not None and type(sp.exception()).__name__ == "NotCoroutine":
                     # the user's function returned something that is not a coroutine: the request dies there, nothing more is owed
                     w.label("fault:non-coroutine-return")
+                    return
+                if self.is_injected(pm, sp.exception()) and getattr(rm, "call_fatal", None) is not None:
+                    # the user's function raised something that is no Exception when called: the request dies there
                     return
                 if self.is_injected(pm, sp.exception()) and getattr(rm, "iter_failed", None) is not None:
                     # the user's argument iterable raised: what was pulled before must have been processed, nothing more is owed
